@@ -29,33 +29,69 @@ def one(xs, what):
 
 
 class Model:
+    """Roles are discovered lazily: a check only fails closed on the roles it actually uses (a renamed private field of the
+    side index must not disturb, say, the determinism or the PyO3 checks)."""
+
+    BOOK_ROLES = ("book_fields", "f_orders", "f_trades", "f_trading", "f_ask", "f_bid", "f_clock", "f_tradevol", "f_stamp", "f_tick")
+    SIDE_ROLES = ("s_prio", "s_levels", "s_total", "side_struct")
+
     def __init__(self, ctx):
         self.ctx = ctx
         self.prog = ctx.prog
         self.w = World(ctx.prog)
+
+    def __getattr__(self, name):
+        if name in Model.BOOK_ROLES:
+            self._book_roles()
+            return self.__dict__[name]
+        if name in Model.SIDE_ROLES:
+            self._side_roles()
+            return self.__dict__[name]
+        raise AttributeError(name)
+
+    def _book_roles(self):
         p = self.prog
-        # ---- OrderBook fields by type / getter
+        # ---- OrderBook fields by type / getter.  Serialised field names (t, tick_size, trade_vol, orders, trades, trading) are
+        #      part of the snapshot format, i.e. public contract; the side indexes and the stamp counter are private.
         bf = {f["name"]: f["ty"] for f in p.adt_fields(BOOK)}
-        self.book_fields = bf
-        self.f_orders = one([n for n, t in bf.items() if "Vec<" in t and "OrderEntry" in t], "order table field")
-        self.f_trades = one([n for n, t in bf.items() if "Vec<" in t and t.rstrip(">").endswith("Trade")], "trade log field")
-        self.f_trading = one([n for n, t in bf.items() if t == "bool"], "trading flag field")
-        self.f_ask = one([n for n, t in bf.items() if t.endswith("AskSide")], "ask side field")
-        self.f_bid = one([n for n, t in bf.items() if t.endswith("BidSide")], "bid side field")
-        self.f_clock = self.getter_field("get_time")
-        self.f_tradevol = self.getter_field("get_trade_vol")
-        rest = [n for n in bf if n not in (self.f_orders, self.f_trades, self.f_trading, self.f_ask,
-                                           self.f_bid, self.f_clock, self.f_tradevol)]
+        d = self.__dict__
+        d["book_fields"] = bf
+        d["f_orders"] = one([n for n, t in bf.items() if "Vec<" in t and "OrderEntry" in t], "order table field")
+        d["f_trades"] = one([n for n, t in bf.items() if "Vec<" in t and t.rstrip(">").endswith("Trade")], "trade log field")
+        d["f_trading"] = one([n for n, t in bf.items() if t == "bool"], "trading flag field")
+        sides = [n for n, t in bf.items() if "side::" in t or t.endswith("Side") or "Side<" in t]
+        asks = [n for n in sides if bf[n].endswith("AskSide") or "Ascending" in bf[n] or "ask" in n.lower()]
+        bids = [n for n in sides if bf[n].endswith("BidSide") or "Descending" in bf[n] or "bid" in n.lower()]
+        d["f_ask"] = one(asks, "ask side field")
+        d["f_bid"] = one(bids, "bid side field")
+        d["f_clock"] = self.getter_field("get_time")
+        d["f_tradevol"] = self.getter_field("get_trade_vol")
+        rest = [n for n in bf if n not in (d["f_orders"], d["f_trades"], d["f_trading"], d["f_ask"], d["f_bid"], d["f_clock"], d["f_tradevol"])]
         # queue-stamp counter (if any): a second field of the clock's type
-        stamps = [n for n in rest if bf[n] == bf[self.f_clock]]
-        self.f_stamp = stamps[0] if len(stamps) == 1 else None
-        rest = [n for n in rest if n != self.f_stamp]
-        self.f_tick = one(rest, "tick size field (the remaining OrderBook field)")
-        # ---- side struct fields by type
-        sf = {f["name"]: f["ty"] for f in p.adt_fields(SIDE_STRUCT)}
-        self.s_prio = one([n for n, t in sf.items() if "BTreeMap<(" in t and t.rstrip(">").endswith("usize")], "priority map")
-        self.s_levels = one([n for n, t in sf.items() if "BTreeMap<u32, (u32, u32)" in t], "level map")
-        self.s_total = one([n for n, t in sf.items() if t == "u32"], "side total")
+        stamps = [n for n in rest if bf[n] == bf[d["f_clock"]]]
+        d["f_stamp"] = stamps[0] if len(stamps) == 1 else None
+        rest = [n for n in rest if n != d["f_stamp"]]
+        if "tick_size" in rest:
+            d["f_tick"] = "tick_size"     # serialised name (snapshot format)
+        else:
+            d["f_tick"] = one(rest, "tick size field (the remaining OrderBook field)")
+
+    def _side_roles(self):
+        p = self.prog
+        d = self.__dict__
+        # ---- side struct: the ADT of module `side` that owns a BTreeMap keyed by (price key, time) with OrderId values
+        cands = []
+        for path, a in p.adts.items():
+            if not path.startswith("bourse_book::side::"):
+                continue
+            fs = {f["name"]: f["ty"] for v in a["variants"] for f in v["fields"]}
+            if any("BTreeMap<(" in t and t.rstrip(">").endswith("usize") for t in fs.values()):
+                cands.append((path, fs))
+        path, sf = one(cands, "side index struct (owns the priority map)")
+        d["side_struct"] = path
+        d["s_prio"] = one([n for n, t in sf.items() if "BTreeMap<(" in t and t.rstrip(">").endswith("usize")], "priority map")
+        d["s_levels"] = one([n for n, t in sf.items() if "BTreeMap<u32," in t], "level map")
+        d["s_total"] = one([n for n, t in sf.items() if t == "u32"], "side total")
 
     # ------------------------------------------------------------------ helpers
     def q(self, fn):
@@ -91,10 +127,14 @@ class Model:
         return [f for f in self.prog.find(crate="bourse_book", adt="OrderBook") if f.pub and f.impl_trait is None]
 
     def book_all_fns(self):
-        return [f for f in self.prog.find(crate="bourse_book", adt="OrderBook") if f.impl_trait is None]
+        """analysis units of the book: OrderBook's inherent functions that can be analysed on their own (a helper that is
+        generic over the side or takes a closure is analysed inside its callers: World.q splices it)"""
+        from analysis.inline import higher_order
+        return [f for f in self.prog.find(crate="bourse_book", adt="OrderBook") if f.impl_trait is None and not higher_order(f)]
 
     def lib_fns(self, crate):
-        return [f for f in self.prog.fns.values() if f.crate.name == crate]
+        from analysis.inline import higher_order
+        return [f for f in self.prog.units() if f.crate.name == crate and not higher_order(f)]
 
     def side_inner(self, name):
         return self.prog.method("OrderBookSide", name, crate="bourse_book")
